@@ -432,7 +432,13 @@ func (s *Store) Add(ctx context.Context, name, mediaType, path string) (ocispec.
 	// generate descriptor
 	var desc ocispec.Descriptor
 	if fi.IsDir() {
-		desc, err = s.descriptorFromDir(ctx, name, mediaType, path)
+		// path may be a symbolic link to the directory: pack the directory it
+		// names, since walking a link does not descend into its target
+		dir, evalErr := filepath.EvalSymlinks(path)
+		if evalErr != nil {
+			return ocispec.Descriptor{}, fmt.Errorf("failed to resolve %s: %w", path, evalErr)
+		}
+		desc, err = s.descriptorFromDir(ctx, name, mediaType, dir)
 	} else {
 		desc, err = s.descriptorFromFile(fi, mediaType, path)
 	}
